@@ -39,6 +39,9 @@ def cases(rng, tier):
     for k in ("none", "int", "bytes", "list", "strsub", "float", "tuple", "false", "true", "nan", "inf", "strlike", "seqobj", "dict", "set",
               "complex", "zero"):
         yield Case(["mkother " + k], {"kind": "nonstring"})
+    # valid (and invalid) strings that are also the names of files in the current working directory
+    for raw in ("README", "LICENSE", "DATA", "tests", "misc", "KKKKKKKKKK", "ACDEFGHIKLMNPQRSTVWY", "setup", "Makefile", "data.txt", "mk ed"):
+        yield Case(["mkcwd %s seq" % hex6(raw), "mkcwd %s fcr" % hex6(raw)], {"kind": "namesake-file-in-cwd"})
     for n in (1, 2, 5):
         for c in (" ", "\t", "\n", " ", " \t\r\n"):
             yield mk(c * n, {"kind": "blank"})
